@@ -90,6 +90,8 @@ Section TxSpec.
     (is_cmd39 i LCRD && negb (p_sub i =? t_nextcred g)) ||
     (is_cmd39 i LGOOD && t_up g && negb (tp_retire g i)).
   Definition tp_lbad (i : pin) : bool := is_cmd39 i LBAD.
+  (* a transmission starts: the raw transmitter is idle and is asked to generate (it latches the header now) *)
+  Definition tp_start (g : tp_state) (o : pout) : bool := q_gen o && negb (t_fly g).
 
   (* scope and the partner's side of the contract: the link stays up (enable high); never more credits than the
      partner has buffers; it acknowledges only headers that were transmitted since its last LBAD *)
@@ -103,11 +105,10 @@ Section TxSpec.
     Bool.eqb (q_ready o) (t_up g && (0 <? t_cred g)) &&
     (* a transmission starts only for the next unsent unacknowledged header, in order; it carries DL iff an LBAD's
        backlog is being drained *)
-    (if q_start o then
+    (if tp_start g o then
        (t_sent g <? N.of_nat (length (t_unacked g))) &&
        (q_hdr o =? (if t_dl g then mark dp else (fun h => h)) (nth (N.to_nat (t_sent g)) (t_unacked g) 0))
      else true) &&
-    Bool.eqb (q_start o) (q_gen o && negb (t_fly g)) &&
     (* partner commands are reported *)
     Bool.eqb (q_retry_req o) (tp_lbad i) && Bool.eqb (q_retry_rx o) (is_cmd39 i LRTY) &&
     (negb (tp_mismatch g i) || q_recov o) &&
@@ -133,8 +134,8 @@ Section TxSpec.
        t_dl := if lbad then true
                else if counted && t_dl g && (t_sent g + 1 =? N.of_nat (length (t_unacked g))) then false
                else t_dl g;
-       t_fly := if dn then false else t_fly g || q_start o;
-       t_stale := if dn then false else t_stale g || (lbad && (t_fly g || q_start o)) |}.
+       t_fly := if dn then false else t_fly g || tp_start g o;
+       t_stale := if dn then false else t_stale g || (lbad && (t_fly g || tp_start g o)) |}.
 
   Definition tp_mon (g : tp_state) (i : pin) (o : pout) : option (tp_state * bool) :=
     if tp_env g i then Some (tp_next g i o, tp_check g i o) else None.
@@ -245,6 +246,47 @@ Section PtxModel.
 End PtxModel.
 
 (* ------------------------------------------------------------------------------------------ *)
+(* 4. LinkCommandDetector, the header path of RawPacketTransmitter, and the complete PacketTransmitter            *)
+Record lcdet := { d_parse : bool; d_cmd : N; d_sub : N; d_new : bool }.
+Definition lcdet_init : lcdet := {| d_parse := false; d_cmd := 0; d_sub := 0; d_new := false |}.
+Definition is_lcstart (w : word) : bool := w_valid w && (w_data w =? LC_START) && (w_ctrl w =? 15).
+(* a command word is accepted iff it is all data, both halves agree and the CRC-5 matches *)
+Definition lc_accept (w : word) : bool :=
+  let lo := bits (w_data w) 0 16 in
+  (w_ctrl w =? 0) && (lo =? bits (w_data w) 16 16) && (bits lo 11 5 =? crc5_usb (bits lo 0 11)).
+Definition lcdet_step (d : lcdet) (w : word) : lcdet :=
+  let take := d_parse d && w_valid w && lc_accept w in
+  {| d_parse := if d_parse d then negb (w_valid w) else is_lcstart w;
+     d_cmd := if take then bits (w_data w) 7 4 else d_cmd d;
+     d_sub := if take then bits (w_data w) 0 4 else d_sub d;
+     d_new := take |}.
+
+(* RawPacketTransmitter for headers without payload: HPSTART, DW0, DW1, DW2, DW3, each word waiting for source.ready *)
+Definition rawtx_step (k : N) (gen srdy : bool) : N :=      (* 0 = idle, 1 = HPSTART, 2..5 = DW0..DW3 *)
+  match k with
+  | 0 => if gen then 1 else 0
+  | 5 => if srdy then 0 else 5
+  | _ => if srdy then k + 1 else k
+  end.
+
+Record fin := {
+  f_en : bool; f_qvalid : bool; f_qhdr : N; f_lrty : bool; f_sink : word; f_srdy : bool }.
+
+Section FullTx.
+  Variables n pw cw sw T tw sp dp : N.
+  Definition ftx_state : Type := (lcdet * N * ptx)%type.
+  Definition ftx_init : ftx_state := (lcdet_init, 0, ptx_init n sw).
+  Definition ftx_pin (st : ftx_state) (i : fin) : pin :=
+    let '(d, k, _) := st in
+    {| p_en := f_en i; p_qvalid := f_qvalid i; p_qhdr := f_qhdr i; p_lrty := f_lrty i;
+       p_new := d_new d; p_cmd := d_cmd d; p_sub := d_sub d; p_finish := (k =? 5) && f_srdy i |}.
+  Definition ftx_step (st : ftx_state) (i : fin) : ftx_state * pout :=
+    let '(d, k, x) := st in
+    let pi := ftx_pin st i in
+    ((lcdet_step d (f_sink i), rawtx_step k (m_gen x pi) (f_srdy i), ptx_step n pw cw sw tw sp x pi), ptx_out n T dp x pi).
+End FullTx.
+
+(* ------------------------------------------------------------------------------------------ *)
 (* 5. Packed forms                                                                              *)
 (* stub targets: input word  enable, queue.valid, queue.header (hh bits), lrty_pending, new_command, command (4),
    subtype (4), finish;   output word  queue.ready, generate, header (hh), start, done, retry_required,
@@ -268,3 +310,55 @@ Definition unpack_pout (hh cw : N) (x : N) : pout :=
 
 Definition ptx_mstep (n pw cw sw T tw sp dp hh : N) (s : ptx) (x : N) : ptx * N :=
   let i := pin_of hh x in (ptx_step n pw cw sw tw sp s i, pack_pout hh cw (ptx_out n T dp s i)).
+
+(* complete PacketTransmitter (real detector and raw transmitter, 128-bit headers, no payloads): input word
+   enable, queue.valid, queue.header (128), lrty_pending, sink.valid, sink.data (32), sink.ctrl (4), source.ready;
+   output word  queue.ready, packet_tx.generate, packet_tx.header (128), packet_tx.done, retry_required, retry_received,
+   recovery_required, bringup_complete, lgo_received, lgo_target (2), credits_available, packets_to_send,
+   link_command_received, lc_detector.command (4), lc_detector.subtype (4) *)
+Definition fin_of (x : N) : fin :=
+  {| f_en := N.testbit x 0; f_qvalid := N.testbit x 1; f_qhdr := bits x 2 128; f_lrty := N.testbit x 130;
+     f_sink := {| w_valid := N.testbit x 131; w_data := bits x 132 32; w_ctrl := bits x 164 4 |};
+     f_srdy := N.testbit x 168 |}.
+Definition ftx_mstep (n pw cw sw T tw : N) (st : ftx_state) (x : N) : ftx_state * N :=
+  let i := fin_of x in
+  let (st', o) := ftx_step n pw cw sw T tw 112 121 st i in
+  (st', packf [(b2n (q_ready o), 1); (b2n (q_gen o), 1); (q_hdr o, 128); (b2n (q_done o), 1);
+               (b2n (q_retry_req o), 1); (b2n (q_retry_rx o), 1); (b2n (q_recov o), 1); (b2n (q_up o), 1);
+               (b2n (q_lgo o), 1); (q_lgo_target o, 2); (q_cred o, cw); (q_tosend o, cw);
+               (b2n (d_new (fst (fst st))), 1); (d_cmd (fst (fst st)), 4); (d_sub (fst (fst st)), 4)]).
+
+(* the specification monitor on packed words *)
+Definition tp_nums (g : tp_state) : list N :=
+  [b2n (t_up g); t_cred g; t_nextcred g; t_seq g; t_sent g; b2n (t_dl g); b2n (t_fly g); b2n (t_stale g);
+   N.of_nat (length (t_unacked g))] ++ t_unacked g.
+Definition tp_enc (W : N) (g : tp_state) : N := packb W (tp_nums g).
+Definition tp_dec (W : N) (m : N) : tp_state :=
+  let h := unpackb W 9 m in
+  let f k := nth k h 0 in
+  let l := unpackb W (9 + N.to_nat (f 8%nat)) m in
+  {| t_up := n2b (f 0%nat); t_cred := f 1%nat; t_nextcred := f 2%nat; t_seq := f 3%nat; t_unacked := skipn 9 l;
+     t_sent := f 4%nat; t_dl := n2b (f 5%nat); t_fly := n2b (f 6%nat); t_stale := n2b (f 7%nat) |}.
+Definition tp_monN (n sw sp dp W : N) (pi : N -> pin) (po : N -> pout) (m i o : N) : option (N * bool) :=
+  match tp_mon n sw sp dp (tp_dec W m) (pi i) (po o) with
+  | None => None
+  | Some (g, ok) => Some (tp_enc W g, ok)
+  end.
+
+(* full target: the monitor reads the decoded partner command from three extra (spied) outputs placed above the
+   output word of ftx_mstep: lc_detector.command (4), lc_detector.subtype (4); new_command = link_command_received *)
+Definition fpin_of (cw : N) (i o : N) : pin :=
+  let base := 138 + 2 * cw in
+  {| p_en := N.testbit i 0; p_qvalid := N.testbit i 1; p_qhdr := bits i 2 128; p_lrty := N.testbit i 130;
+     p_new := N.testbit o (base); p_cmd := bits o (base + 1) 4; p_sub := bits o (base + 5) 4;
+     p_finish := N.testbit o 130 |}.
+Definition fpout_of (cw : N) (o : N) : pout :=
+  {| q_ready := N.testbit o 0; q_gen := N.testbit o 1; q_hdr := bits o 2 128; q_start := false;
+     q_done := N.testbit o 130; q_retry_req := N.testbit o 131; q_retry_rx := N.testbit o 132;
+     q_recov := N.testbit o 133; q_up := N.testbit o 134; q_lgo := N.testbit o 135; q_lgo_target := bits o 136 2;
+     q_cred := bits o 138 cw; q_tosend := bits o (138 + cw) cw |}.
+Definition ftp_monN (n sw W cw : N) (m i o : N) : option (N * bool) :=
+  match tp_mon n sw 112 121 (tp_dec W m) (fpin_of cw i o) (fpout_of cw o) with
+  | None => None
+  | Some (g, ok) => Some (tp_enc W g, ok)
+  end.
